@@ -54,6 +54,10 @@ def run {α : Type} : Prog α → SR → Option (α × SR)
 
 end SR
 
+/-- some window bound was passed (`is not None`) -/
+def Window.given (w : Window) : Bool :=
+  w.startFrame.isSome || w.endFrame.isSome || w.startTime.isSome || w.endTime.isSome
+
 /-- `Pose.read(BytesIO(file), **window)` when the stream reader is chosen -/
 def readStream (file : Bytes) (cache : Option CacheEntry) (w : Window) : Option ((Pose × Option CacheEntry) × SR) :=
   SR.run (rdPose cache w) { file }
@@ -61,5 +65,11 @@ def readStream (file : Bytes) (cache : Option CacheEntry) (w : Window) : Option 
 /-- `Pose.read(file_bytes, **window)` -/
 def readBytes (file : Bytes) (cache : Option CacheEntry) (w : Window) : Option (Pose × Option CacheEntry) :=
   (runBR (rdPose cache w) file 0).map (·.1)
+
+/-- `Pose.read(BytesIO(file), **window)`: the stream reader is used iff a window bound is given, otherwise the whole stream
+    is read into a `BufferReader`. Returns the pose, the new cache and the number of bytes pulled from the stream. -/
+def readSource (file : Bytes) (cache : Option CacheEntry) (w : Window) : Option (Pose × Option CacheEntry × Nat) :=
+  if w.given then (readStream file cache w).map fun r => (r.1.1, r.1.2, r.2.pulled)
+  else (readBytes file cache w).map fun r => (r.1, r.2, file.length)
 
 end PoseVerif
